@@ -58,3 +58,51 @@ class specs_to_ir_faithful:
     @staticmethod
     def gen(rng):
         return {'specs': {'k': 'call', 'fn': 'spec.model_gen:build_spec_list', 'args': [MG.gen_model(rng), rng.randrange(10 ** 6)]}}
+
+
+@contract('stone.ir.api:ApiNamespace.add_annotation', properties=['C02'])
+class add_annotation:
+    params = {'self': Obj(api.ApiNamespace), 'annotation': Obj(dt.Annotation, proper=True)}
+
+    def requires(self, annotation):
+        return isinstance(self.annotations, list) and isinstance(self.annotation_by_name, dict) and isinstance(annotation.name, str)
+
+    def snapshot(self, annotation):
+        return (self.annotations, self.annotation_by_name)
+
+    def ensures(self, annotation, result, exc, old):
+        return (exc is None and len(self.annotations) == len(old[0]) + 1 and self.annotations[len(old[0])] is annotation
+                and all(self.annotations[i] is old[0][i] for i in range(len(old[0])))
+                and self.annotation_by_name[annotation.name] is annotation)
+
+
+@contract('stone.ir.api:ApiNamespace.add_annotation_type', properties=['C02'])
+class add_annotation_type:
+    params = {'self': Obj(api.ApiNamespace), 'annotation_type': Obj(dt.AnnotationType)}
+
+    def requires(self, annotation_type):
+        return (isinstance(self.annotation_types, list) and isinstance(self.annotation_type_by_name, dict)
+                and isinstance(annotation_type.name, str))
+
+    def snapshot(self, annotation_type):
+        return (self.annotation_types, self.annotation_type_by_name)
+
+    def ensures(self, annotation_type, result, exc, old):
+        return (exc is None and len(self.annotation_types) == len(old[0]) + 1
+                and self.annotation_types[len(old[0])] is annotation_type
+                and all(self.annotation_types[i] is old[0][i] for i in range(len(old[0])))
+                and self.annotation_type_by_name[annotation_type.name] is annotation_type)
+
+
+def _table_gen(param, kinds):
+    def gen(rng):
+        call = lambda fn, *a: {'k': 'call', 'fn': fn, 'args': list(a)}
+        return {'self': call('spec.backend_gen:build_namespace', rng.randrange(0, 3)),
+                param: call('spec.backend_gen:build_item', rng.choice(kinds), rng.choice(['T0', 'A1', 'New', 'Zed']))}
+    return staticmethod(gen)
+
+
+add_data_type.gen = _table_gen('data_type', ['struct', 'union'])
+add_alias.gen = _table_gen('alias', ['alias'])
+add_annotation.gen = _table_gen('annotation', ['annotation'])
+add_annotation_type.gen = _table_gen('annotation_type', ['annotation_type'])
